@@ -97,6 +97,13 @@ def dump_tables(project):
                 if proto and getattr(a, "vartype", "") == "type":
                     out["refs"].append([key, "argtype", str(getattr(a, "name", "")).lower(),
                                         origin(proto[0]) if not isinstance(proto[0], str) else ["<unresolved>", str(proto[0]).lower()]])
+    for sm in getattr(project, "submodules", []):
+        t = {}
+        for cls, attr in (("procs", "all_procs"), ("types", "all_types"), ("vars", "all_vars"),
+                          ("absints", "all_absinterfaces")):
+            d = getattr(sm, attr, {}) or {}
+            t[cls] = {k: origin(v) for k, v in sorted(d.items())}
+        out["inner"]["submodule::" + sm.name.lower()] = t
     out["refs"].sort()
     return out
 
